@@ -248,6 +248,18 @@ def pathologies(rng, readers=("strict", "cursor")):
                 L = Layout().add(F()).add(m1).add(box(b"mdat", b"abc"))
                 L.add(box(nm, b"xyz", form="64", size=16 + 3 + over))
                 yield case_line("lenient" if rd == "cursor" else rd, DEFAULT_MAX, None, L.total(), L.exts()), "overshoot"
+        # a truncated filler/unknown box that is NOT adjacent to the media run (after the moov, or before the ftyp's
+        # successor): only the end-of-input position check can catch it on seek-style readers
+        for over in [1, 84, 2**32, 2**63 + 100]:
+            for nm in (b"free", b"skip", b"meta", b"meco"):
+                for lay in ([F(), box(b"mdat", b"abc"), m1], [F(), m1, box(b"mdat", b"abc"), simple_moov([(4, [1])])]):
+                    L = Layout()
+                    for b_ in lay:
+                        L.add(b_)
+                    L.add(box(nm, b"xyz", form="64", size=16 + 3 + over))
+                    yield case_line("lenient" if rd == "cursor" else rd, DEFAULT_MAX, None, L.total(), L.exts()), "overshoot-nonadjacent"
+                    if over < 1000 and rd == "cursor":
+                        yield case_line("cursor", DEFAULT_MAX, None, L.total(), L.exts()), "overshoot-nonadjacent"
         L = Layout().add(F()).add(m1).add(be32(1) + b"mdat" + be64(2**64 - 1) + b"abc")
         yield case_line("lenient" if rd == "cursor" else rd, DEFAULT_MAX, None, L.total(), L.exts()), "overshoot"
 
@@ -300,7 +312,10 @@ def config_lattice(rng, readers=("strict", "cursor")):
     for rd in readers:
         for mx in [0, pl - 1, pl, pl + 1, 4096, 2**30, 2**64 - 1]:
             for data in (F() + box(b"mdat", b"abc") + m1, F() + m1 + box(b"mdat", b"abc"),
-                         F() + box(b"mdat", b"abc") + m1 + simple_moov([(4, [1])])):
+                         F() + box(b"mdat", b"abc") + m1 + simple_moov([(4, [1])]),
+                         F() + box(b"mdat", b"abc") + box(b"moov", m1[8:], form="eof"),
+                         F() + box(b"mdat", b"abc") + box(b"moov", m1[8:], form="64"),
+                         F() + m1 + box(b"mdat", b"abc") + box(b"moov", m1[8:], form="eof")):
                 yield case_dense(rd, mx, None, data), "limit-lattice"
         body = b"abcdefghij"
         for cum in [None, 0, 1, 7, 8, 9, 8 + len(body), 8 + len(body) + 1, 8 + len(body) - 1, 10**6, 2**32 - 1]:
@@ -330,8 +345,26 @@ def displacement_boundary():
                 yield case_line(rd, DEFAULT_MAX, None, L.total(), L.exts()), "displacement-boundary"
 
 
+def u64_edge_cases():
+    """sparse streams of up to 2^64-1 bytes through the real SeekSkipAdapter (reader `vseek`) and the sparse
+    Skip readers: boxes ending at, just below and beyond 2^64-1"""
+    m1 = simple_moov([(4, [20, 30])])
+    f = F()
+    for total in (2**64 - 1, 2**64 - 2, 2**63 + 5):
+        for end in (2**64 - 1, 2**64 - 2, 2**64, 2**64 + 7, 2**63, total, total + 1):
+            head = len(f) + len(m1)
+            size = end - head
+            if size < 16 or size > 2**64 - 1:
+                continue
+            for nm in (b"mdat", b"free"):
+                L = Layout().add(f).add(m1).add(be32(1) + nm + be64(size) + b"abcd")
+                for rd in ("vseek", "lenient", "strict"):
+                    yield case_line(rd, DEFAULT_MAX, None, total, L.exts()), "u64-edge"
+
+
 def standard_stream(run, rewrite_n, mut_n, seq_len, seq_sample=None):
     rng = run.rng
+    yield from u64_edge_cases()
     yield from huge_pad_cases()
     yield from displacement_boundary()
     for lay in seed_layouts(rng):
